@@ -35,6 +35,8 @@ TxAlphabet ==
   \cup { Tx(<<[t |-> "SRate", sender |-> p[2], receiver |-> p[1], rate |-> n]>>) : p \in Pairs, n \in {1, 3} }
   \cup { Tx(<<[t |-> "SCancel", sender |-> p[2], receiver |-> p[1]]>>) : p \in Pairs }
   \cup { Tx(<<[t |-> "SClaim", sender |-> "A3", receiver |-> "A1"]>>), Tx(<<[t |-> "SCancel", sender |-> "A3", receiver |-> "A2"]>>) }
+  \* the parties of A2's stream to A3 named in each other's role
+  \cup { Tx(<<[t |-> "SRate", sender |-> "A3", receiver |-> "A2", rate |-> 3]>>), Tx(<<[t |-> "STopUp", sender |-> "A3", receiver |-> "A2", dep |-> 60, denom |-> "nund"]>>) }
   \cup { Tx(<<[t |-> "Send", from |-> "A1", to |-> "stream", amt |-> 5, denom |-> "nund"]>>) }
   \cup { Tx(<<SCreate("stream", "A1", 60, "nund", 1)>>), Tx(<<SCreate("A1", "A1", 60, "nund", 1)>>), Tx(<<SCreate("A2", "A1", 59, "nund", 1)>>) }
   \* receivers the bank refuses to pay, also in the upper-case spelling of their address (the same account)
@@ -42,6 +44,10 @@ TxAlphabet ==
   \cup { Tx(<<[t |-> "SClaim", sender |-> "A1", receiver |-> "A2"], [t |-> "Send", from |-> "A2", to |-> "A3", amt |-> 1, denom |-> "nund"]>>) }
   \* a stream created and topped up inside a transaction that is rolled back (the pair stays free)
   \cup { Tx(<<SCreate("A2", "A1", 60, "nund", 1), [t |-> "STopUp", sender |-> "A1", receiver |-> "A2", dep |-> 60, denom |-> "nund"], SCreate("A2", "A1", 60, "nund", 1)>>) }
+  \* an existing stream topped up and re-rated, or cancelled, inside a transaction that is rolled back (the stream stays what it was)
+  \cup { Tx(<<[t |-> "STopUp", sender |-> "A1", receiver |-> "A2", dep |-> 60, denom |-> st.str.s[SKey("A2", "A1")].den],
+              [t |-> "SRate", sender |-> "A1", receiver |-> "A2", rate |-> 3], SCreate("A2", "A1", 60, "nund", 1)>>) : x \in (IF SKey("A2", "A1") \in DOMAIN st.str.s THEN {1} ELSE {}) }
+  \cup { Tx(<<[t |-> "SCancel", sender |-> "A1", receiver |-> "A2"], [t |-> "SCancel", sender |-> "A1", receiver |-> "A2"], [t |-> "SCancel", sender |-> "A1", receiver |-> "A2"]>>) }
   \cup { GovTxFor(st, "str", Fees[i]) : i \in (IF FailingGov THEN {} ELSE DOMAIN Fees) }
   \cup (IF FailingGov THEN { GovTxFailingFor(st, "str", Fees[i]) : i \in DOMAIN Fees } ELSE {})
 
